@@ -54,22 +54,25 @@ structure FiveNum (K : Type) where
   max : K
   deriving Repr
 
-/-- `cmb_dataset_fivenum_print` (REPAIRED: an empty half has no median of its own; the quartile is
-    then the median) -/
+/-- the quartile / median computation of `cmb_dataset_fivenum_print` on the sorted copy `v` of `cnt`
+    samples (REPAIRED: an empty half has no median of its own; the quartile is then the median) -/
+def fivenumOfSorted (v : Array K) (cnt : Nat) (mn mx : K) : Option (FiveNum K) := do
+  let med ← arrMedian v 0 (cnt % 4294967296)
+  let lhsz := (cnt / 2) % 4294967296
+  let q1 ← if lhsz > 0 then arrMedian v 0 lhsz else some med
+  let uhsz := (cnt - lhsz) % 4294967296
+  let q3 ← if cnt % 2 = 0 then arrMedian v lhsz uhsz
+           else if uhsz > 1 then arrMedian v (lhsz + 1) (uhsz - 1) else some med
+  pure { min := mn, q1 := q1, med := med, q3 := q3, max := mx }
+
+/-- `cmb_dataset_fivenum_print`: copy, sort, then the above with the tracked `min` / `max` -/
 def DS.fivenum (s : DS K) : Option (FiveNum K) :=
   if s.xa.size = 0 then none        -- "No data to display"
   else do
     let v ← s.sortedCopy
     let mn ← s.min
     let mx ← s.max
-    let cnt := s.count
-    let med ← arrMedian v 0 (cnt % 4294967296)
-    let lhsz := (cnt / 2) % 4294967296
-    let q1 ← if lhsz > 0 then arrMedian v 0 lhsz else some med
-    let uhsz := (cnt - lhsz) % 4294967296
-    let q3 ← if cnt % 2 = 0 then arrMedian v lhsz uhsz
-             else if uhsz > 1 then arrMedian v (lhsz + 1) (uhsz - 1) else some med
-    pure { min := mn, q1 := q1, med := med, q3 := q3, max := mx }
+    fivenumOfSorted v s.count mn mx
 
 end
 
@@ -102,13 +105,26 @@ def TS.sortedCopy (s : TS K) : Option (List K × List K × List K) := do
   let r := heapsort3 d.ds.count (d.ds.xa, d.ta, d.wa)
   pure (r.1.toList.take d.ds.count, r.2.1.toList.take d.ds.count, r.2.2.toList.take d.ds.count)
 
+/-- total weight as the code has it: the last cumulative sum -/
+def wTotal (ws : List K) : K := (cumSums 0 ws).getLast?.getD 0
+
+/-- median of sorted samples `xs` with weights `ws` -/
+def wMedianSorted (xs ws : List K) : Option K := wquantile xs (cumSums 0 ws) (wTotal ws / 2)
+
 /-- `cmb_timeseries_median` (REPAIRED) -/
 def TS.median (s : TS K) : Option K := do
   if s.wa.size = 0 then none            -- cmb_assert_release(tsp->wa != NULL)
   let (xs, _, ws) ← s.sortedCopy
+  wMedianSorted xs ws
+
+/-- the three weighted quantiles of `cmb_timeseries_fivenum_print` on sorted samples -/
+def wFivenumSorted (xs ws : List K) (mn mx : K) : Option (FiveNum K) := do
   let wcum := cumSums 0 ws
-  let wsum := wcum.getLast?.getD 0
-  wquantile xs wcum (wsum / 2)
+  let wsum := wTotal ws
+  let q1 ← wquantile xs wcum (wsum / 4)
+  let med ← wquantile xs wcum (wsum / 2)
+  let q3 ← wquantile xs wcum (3 * wsum / 4)
+  pure { min := mn, q1 := q1, med := med, q3 := q3, max := mx }
 
 /-- `cmb_timeseries_fivenum_print` (REPAIRED) -/
 def TS.fivenum (s : TS K) : Option (FiveNum K) := do
@@ -116,12 +132,7 @@ def TS.fivenum (s : TS K) : Option (FiveNum K) := do
   let (xs, _, ws) ← s.sortedCopy
   let mn ← s.ds.min
   let mx ← s.ds.max
-  let wcum := cumSums 0 ws
-  let wsum := wcum.getLast?.getD 0
-  let q1 ← wquantile xs wcum (wsum / 4)
-  let med ← wquantile xs wcum (wsum / 2)
-  let q3 ← wquantile xs wcum (3 * wsum / 4)
-  pure { min := mn, q1 := q1, med := med, q3 := q3, max := mx }
+  wFivenumSorted xs ws mn mx
 
 end
 end CimbaModel.Stats
